@@ -138,6 +138,12 @@ def text_layer(ctx, ncases):
     for value in (None, 0, False, True, ''):
         SqlCase([table], 'SELECT i FROM #t WHERE %s', (value,), name='constant-where').check(ctx)
         SqlCase([table], 'SELECT i FROM #t WHERE %(p)s', {'p': value}, name='constant-where').check(ctx)
+    # AND / OR with a constant operand still look at the operands before it
+    SqlCase([table], "SELECT b AND FALSE, (i > 1 AND FALSE) IS NULL, coalesce(b AND FALSE, TRUE), b AND 0, NULL AND FALSE, b OR TRUE, "
+            "(b OR TRUE) IS NULL, i > 1 AND 1 > 2, FALSE AND b, TRUE OR b FROM #t", name='text').check(ctx)
+    SqlCase([table], "SELECT i FROM #t WHERE coalesce(b AND FALSE, TRUE)", name='text').check(ctx)
+    SqlCase([table], "SELECT i FROM #t WHERE (i > 1 AND FALSE) IS NULL", name='text').check(ctx)
+    SqlCase([table], "SELECT i, j, i / j, i % j, d / e, d % e, i % e, d % j, 0 / j, 0.0 % e, (i - i) / (j - j), (d - d) % (i - i) FROM #t", name='text').check(ctx)
     # coalesce returns the first non-NULL value, falsy or not
     SqlCase([table], "SELECT coalesce(i, 99), coalesce(d, 9.5), coalesce(s, 'x'), coalesce(b, TRUE), coalesce(i * 0, 7), coalesce(NULL, 0) FROM #t",
             name='text').check(ctx)
